@@ -143,42 +143,57 @@ project.setup(op{marker}())
 '''
 
 
+def _write_package(tmp, sub, case):
+    """Write a project package (directory or zip) whose manifest maps the components as the case says."""
+    root = tmp / sub / 'src'
+    pkgdir = root.joinpath(*case['package'].split('.'))
+    pkgdir.mkdir(parents=True)
+    level = root
+    for part in case['package'].split('.'):
+        level = level / part
+        (level / '__init__.py').write_text('')
+    modules = {}
+    for component, tmpl in (('source', SOURCE_TMPL), ('pipeline', PIPELINE_TMPL)):
+        rel = case['where'][component]            # module path relative to the package, e.g. 'source' or 'parts.input'
+        target = pkgdir.joinpath(*rel.split('.'))
+        target.parent.mkdir(parents=True, exist_ok=True)
+        level = pkgdir
+        for part in rel.split('.')[:-1]:
+            level = level / part
+            (level / '__init__.py').write_text('')
+        target.with_suffix('.py').write_text(tmpl.format(marker=case['marker']))
+        style = case['style'][component]
+        if style == 'relative':
+            modules[component] = rel
+        elif style == 'absolute':
+            modules[component] = f"{case['package']}.{rel}"
+        # 'default': not listed - only legal when rel == component
+    manifest_obj = project.Manifest(case['name'], case['version'], case['package'], **modules)
+    if case['zip']:
+        package = project.Package.create(root, manifest_obj, tmp / sub / 'pkg.4ml')
+    else:
+        manifest_obj.write(root)
+        package = project.Package(root)
+    return package, modules
+
+
+def _forget(before, *packages):
+    import sys
+
+    tops = {p.split('.')[0] for p in packages}
+    for name in set(sys.modules) - before:
+        if name.split('.')[0] in tops:
+            sys.modules.pop(name, None)
+
+
 def install(case):
-    """Write a project package (directory or zip) whose manifest maps the components as the case says, install it, load it."""
+    """Write a project package, install it, load it."""
     import sys
 
     tmp = pathlib.Path(tempfile.mkdtemp(prefix='c18i_', dir='/var/tmp'))
     before = set(sys.modules)
     try:
-        root = tmp / 'src'
-        pkgdir = root.joinpath(*case['package'].split('.'))
-        pkgdir.mkdir(parents=True)
-        level = root
-        for part in case['package'].split('.'):
-            level = level / part
-            (level / '__init__.py').write_text('')
-        modules = {}
-        for component, tmpl in (('source', SOURCE_TMPL), ('pipeline', PIPELINE_TMPL)):
-            rel = case['where'][component]            # module path relative to the package, e.g. 'source' or 'parts.input'
-            target = pkgdir.joinpath(*rel.split('.'))
-            target.parent.mkdir(parents=True, exist_ok=True)
-            level = pkgdir
-            for part in rel.split('.')[:-1]:
-                level = level / part
-                (level / '__init__.py').write_text('')
-            target.with_suffix('.py').write_text(tmpl.format(marker=case['marker']))
-            style = case['style'][component]
-            if style == 'relative':
-                modules[component] = rel
-            elif style == 'absolute':
-                modules[component] = f"{case['package']}.{rel}"
-            # 'default': not listed - only legal when rel == component
-        manifest_obj = project.Manifest(case['name'], case['version'], case['package'], **modules)
-        if case['zip']:
-            package = project.Package.create(root, manifest_obj, tmp / 'pkg.4ml')
-        else:
-            manifest_obj.write(root)
-            package = project.Package(root)
+        package, modules = _write_package(tmp, 'p', case)
         artifact = package.install(tmp / 'installed')
         components = artifact.components
         return {
@@ -187,9 +202,28 @@ def install(case):
             'manifest_equal': package.manifest == project.Manifest(case['name'], case['version'], case['package'], **modules),
         }
     finally:
-        for name in set(sys.modules) - before:
-            if name.split('.')[0] == case['package'].split('.')[0]:
-                sys.modules.pop(name, None)
+        _forget(before, case['package'])
+        shutil.rmtree(tmp, ignore_errors=True)
+
+
+def reinstall(case):
+    """Two packages installed one after the other on the SAME target path (a re-published release on the staging path):
+    the second install must yield the components of the second package."""
+    import sys
+
+    tmp = pathlib.Path(tempfile.mkdtemp(prefix='c18j_', dir='/var/tmp'))
+    before = set(sys.modules)
+    try:
+        first, _ = _write_package(tmp, 'p1', case['first'])
+        second, _ = _write_package(tmp, 'p2', case['second'])
+        one = first.install(tmp / 'installed').components
+        out = {'first': [repr(one.source.extract.train), repr(one.pipeline)]}
+        _forget(before, case['first']['package'], case['second']['package'])
+        two = second.install(tmp / 'installed').components
+        out['second'] = [repr(two.source.extract.train), repr(two.pipeline)]
+        return out
+    finally:
+        _forget(before, case['first']['package'], case['second']['package'])
         shutil.rmtree(tmp, ignore_errors=True)
 
 
@@ -268,6 +302,6 @@ def repackage(case):
 def observe(case):
     try:
         return {'tag': tag, 'genkey': genkey, 'versions': versions, 'genlisting': genlisting, 'rellisting': rellisting,
-                'manifest': manifest, 'install': install, 'nextgen': nextgen, 'repackage': repackage}[case['t']](case)
+                'manifest': manifest, 'install': install, 'reinstall': reinstall, 'nextgen': nextgen, 'repackage': repackage}[case['t']](case)
     except Exception as err:  # pylint: disable=broad-except
         return {'error': f'{type(err).__name__}: {err}'}
